@@ -723,7 +723,7 @@ class Assembler:
         txt += self.clauses('ensures', ens, '    ', fnname)
         if is_canary:
             txt += ('    ensures\n' if not ens else '') + '        false, // @canary\n'
-        return head + txt + '{' + body + ('' if is_block else '\n    ' + tail) + '\n}'
+        return head + txt + '{' + body + ('' if (is_block and not lf.get('append_tail')) else '\n    ' + tail) + '\n}'
 
     def mut_refs(self, s, fp, ed, spec, fnname):
         # ghost-journal parameter: `journal_param = true` adds `, verif_journal: &mut VJournal` to the signature, so that the
